@@ -320,13 +320,15 @@ Definition os_step (i c : nat) (o : op) (flt : fault) (eintr : bool) (s : os) : 
   | OFlock how =>
       match fds s c with
       | None => Some (RErr, s)
-      | Some _ =>
+      | Some fd =>
           match flock_req_of how with
           | FInval => Some (RErr, s)
           | FUnlock => Some (ROk, {| files := files s; fds := fds s; refs := refs s;
                                      ltab := upd (ltab s) i (drop c (ltab s i)) |})
           | FReq k =>
-              if can_grant k c (ltab s i)
+              (* Linux: EBADF unless the description is open for reading or writing *)
+              if negb (acc_readable (fd_acc fd) || acc_writable (fd_acc fd)) then Some (RErr, s)
+              else if can_grant k c (ltab s i)
               then Some (ROk, {| files := files s; fds := fds s; refs := refs s;
                                  ltab := upd (ltab s) i ((c, k) :: drop c (ltab s i)) |})
               else if eintr then Some (REintr, s) else None
